@@ -9,6 +9,8 @@ import time
 from collections import Counter
 
 import vlib
+import clirun
+from clirun import CLI
 from vlib import log, write_replay
 
 BIT_AGREE, BIT_SPEC, BIT_CLASS = 1, 2, 4
@@ -333,7 +335,9 @@ def generic_run(ctx, search, streams_fn, spec_fn, explanation_rule, known_fn=Non
             per_stream[stream] = {"cases": len(cs), "bits": hist_codes(cs, table)}
     nontrivial = {json.dumps(c["meta"].get("inst", c["meta"].get("tree", c["meta"])), sort_keys=True) + json.dumps(c["meta"].get("node", c["meta"].get("choices")))
                   for c in cases if c["code"] & (NODE["class"] if c["stream"] == "node" else SOLVE["class"] if c["stream"] == "solve" else 1)}
-    cov = {"evaluations": len(cases), "distinct_nontrivial": len(nontrivial), "rule": explanation_rule,
+    cli_n = sum(v.get("runs", 0) for k, v in getattr(ctx, "extra_cov", {}).items() if isinstance(v, dict))
+    cov = {"evaluations": len(cases) + cli_n, "distinct_nontrivial": len(nontrivial) + cli_n, "rule": explanation_rule,
+           "cli_level": getattr(ctx, "extra_cov", None),
            "input_distribution": {"harness": summaries, "per_stream_result_bits": per_stream},
            "disagreements_model_vs_impl": len(dis),
            "samples": [c["meta"] for c in cases[:2]]}
@@ -427,6 +431,133 @@ def spec_c19(c):
     return None
 
 
+# ---- CLI level: the real binary on generated instance files
+
+CLI_STATE = {}
+
+
+def cli_records(ctx, seed, count, variants, rooms_mode=2):
+    """builds the binary from /repo's working tree, generates instances, runs the matrix, evaluates check_cli; caches per (seed,count)"""
+    key = (seed, count, json.dumps(variants, sort_keys=True), rooms_mode)
+    if key in CLI_STATE:
+        return CLI_STATE[key]
+    binpath = vlib.build_cli()
+    d, metas = clirun.gen_instances(ctx, seed, count, rooms_mode=rooms_mode)
+    recs = clirun.run_cli_matrix(ctx, binpath, metas, variants)
+    texts = []
+    for r in recs:
+        out = r["out"] if isinstance(r["out"], tuple) else None
+        lst = r["listing"] if isinstance(r["listing"], list) else None
+        rooms = r["meta"]["inst"]["rooms"]
+        texts.append(clirun.g_cli_case(r["meta"], rooms, out, lst))
+    codes = clirun.eval_cli_cases(ctx, texts)
+    for r, c in zip(recs, codes):
+        r["code"] = c
+    CLI_STATE[key] = (metas, recs)
+    return metas, recs
+
+
+def cli_brief(r):
+    return {"args": r["args"], "exit": r["run"]["rc"], "timeout": r["run"]["timeout"], "stderr_tail": r["run"]["stderr"][-600:],
+            "instance_file_content": json.load(open(r["meta"]["file"], encoding="utf-8")), "lib_result": r["meta"]["lib"],
+            "output": r["out"] if not isinstance(r["out"], tuple) else {"assignment": r["out"][0], "score": r["out"][1]},
+            "listing": r["listing"] if isinstance(r["listing"], str) else None, "check_cli_code": r.get("code")}
+
+
+def cli_violation(ctx, r, what):
+    rp = ctx.replay({"kind": "failing-input", "what": what, "stream": "cli", "case": cli_brief(r),
+                     "how": "write instance_file_content to a file and run target/cli/debug/cdecao with the listed args"})
+    return (what + ": " + " ".join(r["args"][:-2])[:120] + " exit=%s" % r["run"]["rc"], rp, False)
+
+
+VARIANTS_C10 = [dict(threads=1, rooms="list", print=False), dict(threads=2, rooms="file", print=True), dict(threads=4, rooms="list", print=True)]
+
+
+def c10_cli(ctx, cases):
+    count = 60 if ctx.tier == "quick" else 400
+    metas, recs = cli_records(ctx, ctx.seed + 5, count, VARIANTS_C10)
+    viol = []
+    lib_bad = [m for m in metas if (m["lib_code"] & (1 | 2 | 4 | 8 | 128)) != (1 | 2 | 4 | 8 | 128)]
+    stats = Counter()
+    for r in recs:
+        run, m = r["run"], r["meta"]
+        valid = bool(r["code"] & CLI["class"])
+        stats["runs"] += 1
+        stats["exit_%s" % run["rc"]] += 1
+        if m["over_subscribed"]:
+            stats["over_subscribed"] += 1
+        if not valid:
+            stats["invalid_instance_skipped"] += 1
+            continue
+        w = None
+        if run["timeout"]:
+            w = "C10: the program hangs (no exit within 120 s) on a valid instance"
+        elif "panicked" in run["stderr"] or run["rc"] not in (0, 1):
+            w = "C10: the program crashes on a valid instance (exit status %s, stderr: %s)" % (run["rc"], run["stderr"][-160:].replace("\n", " "))
+        elif run["rc"] == 0 and not isinstance(r["out"], tuple):
+            w = "C10: exit status 0 without a well-formed output file (%s)" % (r["out"],)
+        elif run["rc"] == 1 and ("No feasible solution found." not in run["stderr"] or (r["outpath"] and os.path.exists(r["outpath"]))):
+            w = "C10: exit status 1 without the 'No feasible solution found.' message, or with an output file"
+        elif (run["rc"] == 0) != (m["lib"]["result"] is not None) and not (r["code"] & CLI["tc"]):
+            w = "C10/C03: verdict of the binary differs from the verdict of caobab::solve (1 worker) on the same instance"
+        if w:
+            viol.append(cli_violation(ctx, r, w))
+    ctx.extra_cov = {"cli_runs": dict(stats), "lib_histories_not_accepted": len(lib_bad)}
+    return viol[:4], []
+
+
+def spec_c10(c):
+    if c["stream"] == "node" and has(c, NODE, "class") and (c["code"] & NODE["impl_panic"]):
+        return "C10: run_bab_node panics on a valid instance and well-formed node"
+    if c["stream"] == "solve" and has(c, SOLVE, "class") and not has(c, SOLVE, "returned"):
+        return "C10: caobab::solve on a valid instance ends in a " + ("deadlock" if c["meta"]["outcome"] == 1 else "panic")
+    return None
+
+
+VARIANTS_C14 = [dict(threads=1, rooms="list", print=True), dict(threads=3, rooms="file", print=True), dict(threads=1, rooms="list", print=False)]
+
+
+def c14_cli(ctx, cases):
+    count = 70 if ctx.tier == "quick" else 500
+    metas, recs = cli_records(ctx, ctx.seed + 6, count, VARIANTS_C14)
+    viol = []
+    stats = Counter()
+    for r in recs:
+        run, m = r["run"], r["meta"]
+        stats["runs"] += 1
+        if run["rc"] != 0:
+            stats["no_solution_or_error"] += 1
+            continue
+        w = None
+        if not isinstance(r["out"], tuple):
+            w = "C14: output file is not a well-formed simple-format result (%s)" % (r["out"],)
+        elif not (r["code"] & CLI["array"]):
+            w = "C14: the assignment array has not exactly one entry per input participant / an entry is not a valid course index"
+        elif r["variant"].get("print") and isinstance(r["listing"], str):
+            w = "C14: the --print listing cannot be matched with the input (%s)" % r["listing"]
+        elif r["variant"].get("print") and not (r["code"] & CLI["listing"]):
+            w = "C14: the --print listing differs from the listing the assignment array determines (people under a course, " \
+                "instructor flags, count incl. hidden names; Listing.listing evaluated in Coq)"
+        elif r["variant"]["threads"] == 1 and m["lib"]["result"] and list(r["out"][0]) != m["lib"]["result"]["assignment"]:
+            w = "C14: the written assignment differs from the assignment caobab::solve returned for the same instance (1 worker)"
+        if r["variant"].get("print") and isinstance(r["listing"], list):
+            stats["listings_compared"] += 1
+            if any(h for h in m["hidden"]):
+                stats["with_hidden_names"] += 1
+        if w:
+            viol.append(cli_violation(ctx, r, w))
+    ctx.extra_cov = {"cli_runs": dict(stats)}
+    return viol[:4], []
+
+
+def spec_none(c):
+    return None
+
+
+def streams_none(ctx, scale, off):
+    return [], []
+
+
 def streams_node_solve(rooms):
     def f(ctx, scale, off):
         s1, c1 = node_stream(ctx, ctx.seed + off, 250 * scale, rooms=rooms)
@@ -464,6 +595,30 @@ RULE_TREE = "seeded synthetic subproblem trees (1-12 nodes, chains and bushy, al
             "wake-ups, exhaustive DFS over all schedules of trees <= 4 nodes with 2 workers; non-trivial = distinct (tree, schedule) accepted"
 
 REGISTRY = {
+
+    "C10": dict(mk(spec_c10, streams_node_solve(2), RULE_NS + "; CLI stream: the real binary (debug build) on generated simple-format files incl. "
+                   "over-subscribed and infeasible instances, 1/2/4 threads, --rooms / --rooms-file, --print", extra_fn=c10_cli), allow_axioms=(),
+        explanation="C10_node_partial (sites 1-5 of run_bab_node unreachable on valid instances and well-formed nodes; only the room stage's "
+                    "sites 6-10 remain), C10_node_noroom (no site at all without rooms), C10_never_stuck (every instance). Never hangs: C04. "
+                    "The real binary is run on generated valid instances: exit 0 with a well-formed output or exit 1 with the message and "
+                    "no output, no panic, no timeout; node-level and solve-level outcomes compared with the model (debug build: overflow "
+                    "and debug_assert are panics).",
+        trusted_base=["modelled, not verified: src/caobab.rs, src/bab.rs; main.rs exit-code decisions are observed on the binary, not modelled; "
+                      "room-stage sites 6-10 and preservation of node well-formedness by children are covered by correspondence only; "
+                      "i32 label range (Overflow outcome) by the classical bound; memory exhaustion / running time not modelled"],
+        assumptions=["valid instances (validb); resource bounds: sum of num_max small enough for the dense matrix"]),
+    "C14": dict(mk(spec_none, streams_none, "CLI stream: generated valid simple-format instances (non-ASCII names, hidden participant names, "
+                   "participants without choices), binary run with --print and an output file, 1 and 3 threads, --rooms/--rooms-file; stdout "
+                   "parsed back into (course, count, [(participant, flag)], hidden) and compared in Coq with Listing.listing of the written array",
+                   extra_fn=c14_cli), allow_axioms=(),
+        explanation="C14_partition / C14_flags / C14_count / C14_once about the structural model of format_assignment (Listing.listing): under "
+                    "each course exactly the people the array assigns to it, flagged exactly its instructors, count = people + hidden names; "
+                    "C14_array: the array shape follows from C01's HardOK.  The real binary's output file and listing are parsed and checked "
+                    "against the model inside Coq.",
+        trusted_base=["modelled, not verified: src/io.rs format_assignment (structure, not layout), src/io/simple.rs writer (keys observed on "
+                      "the real file); serde_json text encoding trusted; names are generated unique, without newline and without the suffix "
+                      "' (instr)' (the listing is ambiguous otherwise)"],
+        assumptions=["participant and course names are unique in the generated instances (needed to parse the listing back)"]),
 
     "C01": dict(mk(spec_c01, streams_node_solve(2), RULE_NS), allow_axioms=(),
         explanation="C01_node / C01: for every valid instance, every node, every worker count and interleaving (all reachable states of the "
